@@ -494,12 +494,12 @@ Qed.
 
 Lemma cok2_const ps c : wf_expr2 (XConst c) ps -> compile_ok2 ps (XConst c).
 Proof.
-  intros [Hs Hd]. apply (cok2_datum ps (XConst c) c); [intros; apply compile_const_eq; exact Hs|exact Hd|].
+  intros [Hs Hd]. apply (cok2_datum ps (XConst c) c); [intros; apply compile_const_eq; [exact Hs|exact Hd]|exact Hd|].
   intros lv rho r rho' HR. inversion HR; subst. auto.
 Qed.
 Lemma cok2_quote ps d : wf_expr2 (XQuote d) ps -> compile_ok2 ps (XQuote d).
 Proof.
-  intros Hd. apply (cok2_datum ps (XQuote d) d); [intros; apply compile_quote_form|exact Hd|].
+  intros Hd. apply (cok2_datum ps (XQuote d) d); [intros; apply compile_quote_form; exact Hd|exact Hd|].
   intros lv rho r rho' HR. inversion HR; subst. auto.
 Qed.
 
